@@ -107,4 +107,25 @@ def optGet (o : Option α) : Except PyErr α :=
   | some a => .ok a
   | none => .error .outOfModel
 
+/-! ### an `RdfLiteral` protobuf message being filled in (`langtag` and `datatype` are members of one oneof) -/
+structure PLit where
+  lex : String := ""
+  langtag : Option String := none
+  datatype : Option Nat := none
+deriving Repr, DecidableEq, Inhabited
+
+def PLit.setLang (l : PLit) (v : String) : PLit := { l with langtag := some v, datatype := none }
+def PLit.setDt (l : PLit) (v : Nat) : PLit := { l with datatype := some v, langtag := none }
+/-- which member of the oneof ends up set -/
+def PLit.kind (l : PLit) : WLitKind :=
+  match l.datatype with
+  | some d => .dt d
+  | none => match l.langtag with
+    | some t => .lang t
+    | none => .plain
+
+/-- truthiness of a `str | None` / `int | None` -/
+def optStrTruthy (o : Option String) : Bool := match o with | some s => s != "" | none => false
+def optNatTruthy (o : Option Nat) : Bool := match o with | some n => n != 0 | none => false
+
 end Jelly.Py
